@@ -257,7 +257,10 @@ class TranscriptAnnotationModel():
             else:
                 seq = seq + new_seq
 
-        cds_start = self.get_cds_start_index()
+        # The sequence spans every CDS record, including the bases before the
+        # first complete codon that get_cds_start_index skips.
+        first_cds = self.cds[0] if self.transcript.strand == 1 else self.cds[-1]
+        cds_start = self.get_cds_start_index() - (first_cds.frame or 0)
 
         if self.transcript.strand == -1:
             seq = seq.reverse_complement()
